@@ -153,6 +153,28 @@ impl Pool {
     }
 }
 
+impl Pool {
+    /// One of the pool's open fragments with its hole filled by `v` (its own bound variables
+    /// renamed away from `v`), if the pool has any.
+    pub fn open_fragment(&self, rng: &mut Rng, v: &str) -> Option<F> {
+        let open: Vec<&F> = self.frags.iter().filter(|f| f.free_vars().contains(HOLE)).collect();
+        if open.is_empty() {
+            return None;
+        }
+        let f = (*rng.pick(&open)).clone();
+        let mut g = f;
+        let mut names = std::collections::BTreeSet::new();
+        g.all_var_names(&mut names);
+        for nm in names {
+            if nm == v {
+                let fresh = fresh_name(rng, &[v.to_string()]);
+                g = g.rename_var(&nm, &fresh);
+            }
+        }
+        Some(Pool::instantiate(&g, v))
+    }
+}
+
 pub struct Gen<'a> {
     pub cfg: &'a GenCfg,
     pub pool: &'a Pool,
